@@ -237,36 +237,45 @@ func (c *Case) defaultOutcome(net string) string {
 	}
 }
 
-// allowed: the set of outcomes the documented semantics allow for a request, and for diagnostics the per-route
-// condition values.
-func (c *Case) allowed(q ReqSpec) (outs map[string]bool, trace [][]condVal) {
+// allowed: the set of outcomes the documented semantics allow for a request, the set of routes that may be the
+// chosen one (by name; "default" for the trailing default), and for diagnostics the per-route condition values.
+func (c *Case) allowed(q ReqSpec) (outs map[string]bool, routes map[string]bool, trace [][]condVal) {
 	outs = map[string]bool{}
+	routes = map[string]bool{}
 	for _, r := range c.Routes {
 		cs := c.routeConds(r, q)
 		trace = append(trace, cs)
-		vs := make([]vset, len(cs))
-		for i := range cs {
-			vs[i] = cs[i].v
-		}
-		v := and(vs...)
+		v := andConds(cs)
 		for cl := range v.E {
 			outs["err "+cl] = true
 		}
 		if v.T {
 			outs[c.clientOutcome(r.Client, q.Net)] = true
+			routes[r.Name] = true
 		}
 		if !v.F {
 			return
 		}
 	}
 	outs[c.defaultOutcome(q.Net)] = true
+	routes["default"] = true
 	return
 }
 
-// judge compares the implementation's answer with the allowed set. key == "" means fine.
-func (c *Case) judge(q ReqSpec, impl string) (key, detail string) {
-	outs, trace := c.allowed(q)
-	if outs[impl] {
+func andConds(cs []condVal) vset {
+	vs := make([]vset, len(cs))
+	for i := range cs {
+		vs[i] = cs[i].v
+	}
+	return and(vs...)
+}
+
+// judge compares the implementation's answer (and the route it reports to have matched, "" if unknown) with the
+// allowed set. key == "" means fine. The key names the kind of disagreement and, where it can be attributed, the
+// documented condition(s) the implementation got wrong.
+func (c *Case) judge(q ReqSpec, impl, route string) (key, detail string) {
+	outs, routes, trace := c.allowed(q)
+	if outs[impl] && (route == "" || routes[route]) {
 		return "", ""
 	}
 	var want []string
@@ -274,45 +283,71 @@ func (c *Case) judge(q ReqSpec, impl string) (key, detail string) {
 		want = append(want, o)
 	}
 	sort.Strings(want)
+	var wantRoutes []string
+	for r := range routes {
+		wantRoutes = append(wantRoutes, r)
+	}
+	sort.Strings(wantRoutes)
+	detail = "request " + q.line() + ": implementation answered " + impl + " (route " + route + "), documented semantics allow " +
+		strings.Join(want, " | ") + " (route " + strings.Join(wantRoutes, " | ") + ")"
 	onlyErr := true
 	for _, o := range want {
 		if !strings.HasPrefix(o, "err ") {
 			onlyErr = false
 		}
 	}
-	// name the conditions of the first route whose handling is inconsistent with the answer
-	shape := "default"
-	for i, cs := range trace {
-		var vs []vset
-		var ns []string
+	notT := func(cs []condVal) string {
+		var bad []string
 		for _, cv := range cs {
-			vs = append(vs, cv.v)
-			ns = append(ns, cv.name)
-		}
-		v := and(vs...)
-		took := impl == c.clientOutcome(c.Routes[i].Client, q.Net)
-		if (took && !v.T) || (!took && !v.F) {
-			var bad []string
-			for _, cv := range cs {
-				if (took && !cv.v.T) || (!took && !cv.v.F) {
-					bad = append(bad, cv.name)
-				}
+			if !cv.v.T {
+				bad = append(bad, cv.name)
 			}
-			if len(bad) == 0 {
-				bad = ns
-			}
-			shape = strings.Join(bad, "+")
-			break
 		}
+		return strings.Join(bad, "+")
 	}
-	kind := "wrong-outcome"
 	switch {
-	case impl == "panic":
-		kind = "panic"
-	case onlyErr && !strings.HasPrefix(impl, "err "):
-		kind = "silent-resolver-failure"
-	case strings.HasPrefix(impl, "err ") && !onlyErr:
-		kind = "unexpected-error"
+	case strings.HasPrefix(impl, "err ") && len(routes) > 0 && !hasErr(outs):
+		return "unexpected-error", detail
+	case strings.HasPrefix(impl, "err "):
+		return "wrong-error-class", detail
+	case onlyErr:
+		// which route's undecidable condition was passed over or taken for a match
+		for i, cs := range trace {
+			if v := andConds(cs); !v.F || c.Routes[i].Name == route {
+				return "silent-resolver-failure:" + notT(cs), detail
+			}
+		}
+		return "silent-resolver-failure", detail
+	case route != "":
+		for i, cs := range trace {
+			v := andConds(cs)
+			if c.Routes[i].Name == route {
+				if !v.T {
+					return "matched-despite:" + notT(cs), detail
+				}
+				break
+			}
+			if !v.F {
+				if len(v.E) > 0 {
+					return "silent-resolver-failure:" + notT(cs), detail
+				}
+				return "skipped-matching-route", detail
+			}
+		}
+		if outs[impl] {
+			return "wrong-route-same-client", detail
+		}
+		return "wrong-client", detail
+	default:
+		return "wrong-outcome", detail
 	}
-	return kind + ":" + shape, "request " + q.line() + ": implementation answered " + impl + ", documented semantics allow " + strings.Join(want, " | ")
+}
+
+func hasErr(outs map[string]bool) bool {
+	for o := range outs {
+		if strings.HasPrefix(o, "err ") {
+			return true
+		}
+	}
+	return false
 }
